@@ -17,7 +17,7 @@ RULE = ("Douglas fits: d 1..4, n_cuts 1..4, feature masks with >=1 used feature,
 ASSUMPTIONS = ["a sample's cell along a feature = number of cut points below its value (property text)",
                "masks with no used feature are not generated"]
 EVAL_COUNTER = "fits"
-REQUIRED = {"quick": {"fits": 250, "binning_calls_checked": 5000, "masked_fits": 60, "mask_perturbations": 120,
+REQUIRED = {"quick": {"fits": 250, "memberships_read_through_public_api": 3000, "masked_fits": 60, "mask_perturbations": 120,
                       "cells_compared": 1500, "active_point_queries": 4000, "active_queries_between_cuts": 300,
                       "fits_multi_cut": 120, "cells_matched_to_leaves": 700, "integer_query_points": 3000},
             "thorough": {"fits": 5000, "active_point_queries": 90000}}
@@ -34,7 +34,12 @@ class State:
         from gemclus.tree import Douglas
         self.ctx = ctx
         self.patcher = Patcher()
-        orig = vars(Douglas)["_leaf_binning"]
+        orig = vars(Douglas).get("_leaf_binning")
+        if orig is None:
+            # the private helper this extra monitor taps does not exist in this tree: the memberships are then observed
+            # through the public attributes only (memberships_by_effect below), which decides the same clause
+            ctx.count("binning_hook_absent")
+            return
         chk = ctx.guard(self.check_binning, "leaf_binning")
 
         def _leaf_binning(self_, X, cut_points, *args, **kwargs):
@@ -77,6 +82,36 @@ def active_ref(cut_list, Q):
         if any(lo < float(c) < hi for c in cuts):
             out.append(int(f))
     return out
+
+
+def memberships_by_effect(ctx, est, rng, d, K, L):
+    """The leaf memberships of a sample, read through the public API: predictions are soft-max(memberships @ leaf_scores_),
+    so with leaf_scores_ set to the indicator of leaf j in the first column (zeros elsewhere) the first probability is
+    e^m_j / (e^m_j + K - 1), i.e. m_j = log(p_0 (K - 1) / (1 - p_0)).  For every temperature the vector (m_j)_j must be a
+    probability vector.  Needs K >= 2 and is run for models with at most 36 leaves."""
+    if K < 2 or L > 36 or L < 1:
+        return
+    saved_scores, saved_t = est.leaf_scores_, est.temperature
+    Q = rng.normal(scale=2.0, size=(6, d))
+    try:
+        for T in (1e-3, 0.05, 1.0, 30.0, 1e3):
+            est.temperature = T
+            M = np.zeros((len(Q), L))
+            for j in range(L):
+                S = np.zeros((L, K))
+                S[j, 0] = 1.0
+                est.leaf_scores_ = S
+                p0 = np.asarray(est.predict_proba(Q))[:, 0]
+                M[:, j] = np.log(p0 * (K - 1) / (1 - p0))
+            ctx.count("memberships_read_through_public_api", len(Q))
+            ok = np.all(np.isfinite(M)) and np.all(M >= -1e-9) and np.all(np.abs(M.sum(1) - 1) <= 1e-8)
+            if not ok:
+                ctx.violation("soft-bins", "leaf-memberships-not-a-probability-vector",
+                              observed={"temperature": T, "row_sums": M.sum(1), "min": float(np.nanmin(M)) if M.size else None, "leaves": L},
+                              expected="finite, >= 0, rows sum to 1")
+                break
+    finally:
+        est.leaf_scores_, est.temperature = saved_scores, saved_t
 
 
 def run_case(case, ctx, st):
@@ -139,6 +174,7 @@ def run_case(case, ctx, st):
                 ctx.violation("mask", "masked-feature-changes-predictions", observed={"mask": mask, "max_change": float(np.max(np.abs(est.predict_proba(Xp) - P0)))},
                               expected="bit-identical")
                 break
+    memberships_by_effect(ctx, est, rng, d, K, want_leaves)
     # low temperature: predictions constant inside grid cells
     cuts = {int(f): np.sort(np.asarray(c, dtype=float)) for f, c in est.cut_points_list_}
     delta = 0.05
@@ -266,3 +302,9 @@ def run_case(case, ctx, st):
     if n_cuts >= 2 or mask is not None:
         ctx.distinct(str(p), tuple(float(x) for _, c in est.cut_points_list_ for x in c))
         ctx.sample({"params": p, "n": n, "d": d, "cuts": {k: v for k, v in cuts.items()}})
+
+
+def finalize(counters, violations, inconclusive):
+    # the tap on the private helper is an extra; when the helper exists it must have been reached
+    if not counters.get("binning_hook_absent") and counters.get("binning_calls_checked", 0) < 5000 and counters.get("fits", 0) >= 250:
+        inconclusive.append("monitor counter binning_calls_checked=%s < required 5000" % counters.get("binning_calls_checked", 0))
